@@ -338,6 +338,32 @@ pub fn run(ctx: &Ctx) -> i32 {
                 ("overlong-name", long),
                 ("empty-name", String::new()),
             ];
+            // an include graph whose expansion is exponential in its size: 21 two-line files, each including the next one twice
+            {
+                let n = 20;
+                for i in 0..n {
+                    sc.write(&format!("bomb/f{i}.s"), &format!(".include \"f{}.s\"\n.include \"f{}.s\"\n", i + 1, i + 1));
+                }
+                sc.write(&format!("bomb/f{n}.s"), "    addi t0, t0, 1\n");
+                let text = ".include \"f0.s\"\nmain:\n    li a7, 10\n    ecall\n";
+                sc.write("bomb/main.s", text);
+                let bytes = 21 * 40 + text.len();
+                for (b, exe) in [("dev", &ctx.rva_checked), ("release", &ctx.rva_release)] {
+                    let (run, rss) = cli::run_measured(exe, &["lint", "--compact", "--no-color", "bomb/main.s"], &sc.dir, 4 * 1024 * 1024, std::time::Duration::from_secs(20));
+                    acc.evaluations += 1;
+                    acc.count("include_doubling_chains", 1);
+                    let replay = json!({"class": "include-doubling-chain", "build": b, "files": "bomb/f<i>.s = two includes of f<i+1>.s for i < 20, f20.s = one instruction, main.s includes f0.s"});
+                    if run.timed_out {
+                        acc.violation("C06|hang|cli|include-doubling-chain".to_string(), format!("`rva lint` ({b}) did not finish within 20 s on an include graph of {bytes} bytes (21 files, each including the next one twice)"), replay);
+                    } else if run.panicked() || run.signal.is_some() || run.code != Some(0) {
+                        acc.violation("C06|panic|cli|include-doubling-chain".to_string(), format!("`rva lint` ({b}) ends abnormally on the include-doubling chain: code {:?} signal {:?} {}", run.code, run.signal, run.stderr.lines().take(2).collect::<Vec<_>>().join(" | ").chars().take(200).collect::<String>()), replay);
+                    } else if rss.is_some_and(|k| k > 512 * 1024) {
+                        acc.violation("C06|memory|cli|include-doubling-chain".to_string(), format!("`rva lint` ({b}) used {rss:?} KiB on an include graph of {bytes} bytes"), replay);
+                    } else {
+                        acc.count("include_doubling_chains_ok", 1);
+                    }
+                }
+            }
             // a base file whose *name* is not UTF-8 (file names are bytes on this platform)
             {
                 use std::os::unix::ffi::OsStringExt;
